@@ -232,12 +232,12 @@ func firstLineOf(s string) string {
 }
 
 // c04Extra: further actions, enumerated in scripts of length <= 2 that contain at least one of them.
-var c04Extra = []string{"errwrap", "errStd", "panicWrap"}
+var c04Extra = []string{"errwrap", "errStd", "panicWrap", "setmeta201"}
 
 func c04Scripts(maxLen int, f func([]string) bool) {
 	if maxLen > 0 {
 		all := append(append([]string{}, c04Actions...), c04Extra...)
-		isExtra := func(a string) bool { return a == "errwrap" || a == "errStd" || a == "panicWrap" }
+		isExtra := func(a string) bool { return a == "errwrap" || a == "errStd" || a == "panicWrap" || a == "setmeta201" }
 		for _, a := range all {
 			if isExtra(a) && !f([]string{a}) {
 				return
